@@ -63,7 +63,7 @@ structure Spec where
   deriving Repr, Inhabited
 
 inductive Err where
-  | indexSize | hierarchy | noMod | syntaxErr | namespaceErr | invalidMod | attributeErr
+  | indexSize | hierarchy | noMod | syntaxErr | namespaceErr | invalidMod
   deriving DecidableEq, Repr
 
 inductive Outcome where
@@ -447,41 +447,66 @@ def pInsert (raising : Bool) (p : PSt) (r : Rule) (clean : Bool) : List Rule × 
   let res := insertCore { rules := p.acc, gone := [], next := 0, raising := raising } p.nd r p.acc.length false clean false
   (res.1.rules, res.2)
 
-/-- one statement of the text (`cssstylesheet.py:171-316`); `.error` = a DOM exception escaped (raise mode) -/
-def parseOne (raising : Bool) (p : PSt) (s : Spec) : Except Err PSt :=
-  let refuse (e : Err) (p' : PSt) : Except Err PSt := if raising then .error e else .ok p'
-  let lvlOk : Bool := match Gen.lvlMax s.kind with
-    | some m => !(p.level > m)
-    | none => true
-  let after : Nat := match Gen.lvlAfter s.kind with
-    | some a => a
-    | none => max 1 p.level                                       -- S, COMMENT, unknownrule: `max(1, expected or 0)`
-  let ins (r : Rule) (next : Nat) (nd : Dict) (clean : Bool) : Except Err PSt :=
-    let res := pInsert raising p r clean
-    match res.2 with
-    | .err e => .error e
-    | _ => .ok { acc := res.1, nd := nd, level := after, next := next }
-  if !lvlOk then refuse .hierarchy p                               -- `return expected`
+/-- what a dispatcher callback decides for one statement -/
+inductive Act where
+  /-- a DOM exception escapes while the statement's own text is parsed (raise mode) -/
+  | fail (e : Err)
+  /-- the statement is refused by the callback: `log.error(...)`; `keepLevel`: it returns `expected` unchanged -/
+  | refuse (e : Err) (keepLevel : Bool)
+  /-- @namespace with a prefix seen before in this text: the URI of the earlier rule is replaced (`:235-238`) -/
+  | replace
+  /-- `self.insertRule(rule)` (with `_clean=False` for @namespace), then `nd` is the prefix dict, `next` the next id -/
+  | ins (r : Rule) (next : Nat) (nd : Dict) (clean : Bool)
+
+/-- the level test of the callback for this kind: `if expected > N` (`Gen.lvlMax`) -/
+def lvlOk (level : Nat) (k : Kind) : Bool :=
+  match Gen.lvlMax k with
+  | some m => !(level > m)
+  | none => true
+
+/-- the level the callback returns after handling a rule of this kind (`Gen.lvlAfter`);
+S, COMMENT, unknownrule: `max(1, expected or 0)` -/
+def lvlNext (level : Nat) (k : Kind) : Nat :=
+  match Gen.lvlAfter k with
+  | some a => a
+  | none => max 1 level
+
+/-- the decision of the callback for statement `s` (`cssstylesheet.py:176-316`) -/
+def actOf (raising : Bool) (p : PSt) (s : Spec) : Act :=
+  if !lvlOk p.level s.kind then .refuse .hierarchy true             -- `return expected`
   else if s.kind = .ns then
-    if !s.wellformed then refuse .syntaxErr { p with level := after }
+    if !s.wellformed then .refuse .syntaxErr true                  -- ignored, `return expected` (:243-244)
     else if !p.nd.hasKey s.pre then                                -- :231-233
-      ins ⟨p.next, .ns, s.pre, s.uri, [], [], false, none, []⟩ (p.next + 1) (p.nd.set s.pre s.uri) false
-    else                                                           -- :235-238 same prefix: the URI is replaced
-      .ok { acc := replaceUri s.pre s.uri p.acc, nd := p.nd.set s.pre s.uri, level := after, next := p.next }
+      .ins ⟨p.next, .ns, s.pre, s.uri, [], [], false, none, []⟩ (p.next + 1) (p.nd.set s.pre s.uri) false
+    else .replace                                                  -- :235-238
   else if s.kind = .style then
     if usesDeclared p.nd s.used then
-      ins ⟨p.next, .style, [], [], [], s.used, false, none, []⟩ (p.next + 1) p.nd true
-    else refuse .namespaceErr p                                    -- not well-formed: ignored, level kept (:314-316)
+      .ins ⟨p.next, .style, [], [], [], s.used, false, none, []⟩ (p.next + 1) p.nd true
+    else .refuse .namespaceErr true                                -- not well-formed: ignored, level kept (:314-316)
   else if s.kind = .media then
     match parseMediaKids raising p.nd p.next (p.next + 1) s.kids with
-    | .error e => .error e
-    | .ok ks => ins ⟨p.next, .media, [], [], [], [], false, none, ks.1⟩ ks.2 p.nd true
+    | .error e => .fail e
+    | .ok ks => .ins ⟨p.next, .media, [], [], [], [], false, none, ks.1⟩ ks.2 p.nd true
   else if s.kind = .page then
     match parsePageKids raising p.next (p.next + 1) s.kids with
-    | .error e => .error e
-    | .ok ks => ins ⟨p.next, .page, [], [], [], [], false, none, ks.1⟩ ks.2 p.nd true
+    | .error e => .fail e
+    | .ok ks => .ins ⟨p.next, .page, [], [], [], [], false, none, ks.1⟩ ks.2 p.nd true
   else
-    ins ⟨p.next, s.kind, s.pre, s.uri, s.enc, s.used, false, none, []⟩ (p.next + 1) p.nd true
+    .ins ⟨p.next, s.kind, s.pre, s.uri, s.enc, s.used, false, none, []⟩ (p.next + 1) p.nd true
+
+/-- one statement of the text; `.error` = a DOM exception escaped (raise mode) -/
+def parseOne (raising : Bool) (p : PSt) (s : Spec) : Except Err PSt :=
+  match actOf raising p s with
+  | .fail e => .error e
+  | .refuse e keepLevel =>
+    if raising then .error e
+    else .ok (if keepLevel then p else { p with level := lvlNext p.level s.kind })
+  | .replace =>
+    .ok { acc := replaceUri s.pre s.uri p.acc, nd := p.nd.set s.pre s.uri, level := lvlNext p.level s.kind, next := p.next }
+  | .ins r next nd clean =>
+    match pInsert raising p r clean with
+    | (_, .err e) => .error e
+    | (acc, _) => .ok { acc := acc, nd := nd, level := lvlNext p.level s.kind, next := next }
 
 /-- the statements of a text, white space after each: the `S` callback raises the level to at least 1
 (`max(1, expected or 0)`, `:171-174`) — this matters only after a first statement that was ignored at level 0 -/
@@ -539,9 +564,9 @@ def setEncoding (st : St) (e : Cps) (valid : Bool) : St × Outcome :=
   let fresh : St × Outcome :=                                   -- :453-454
     if e.isEmpty then (st, .none)
     else if !valid then
-      -- the constructor's setter refuses: raises, or (log-only) leaves an object without `_encoding`, on which
-      -- `rule.wellformed` raises AttributeError inside insertRule
-      (st, if st.raising then .err .syntaxErr else .err .attributeErr)
+      -- the constructor's setter refuses: raises, or (log-only) leaves a rule without encoding, which insertRule
+      -- refuses as not well-formed (`csscharsetrule.py:55-57`, `cssstylesheet.py:664-666`)
+      (st, logError st.raising .syntaxErr)
     else
       let r := insertRule st ⟨.charset, [], [], e, [], []⟩ (some 0) false false false
       (r.1, match r.2 with | .ok _ => .none | o => o)
